@@ -288,7 +288,7 @@ def run(rep: Report, prog: Program, tier: str) -> None:
                 return True
             if m.name in seen or m.name.startswith("__"):
                 return False
-            if not m.name.startswith("_"):
+            if not (m.name.startswith("_") or m.name.endswith("__wrapped__")):
                 return False  # public method called from anywhere
             sites = call_sites(m.name)
             return bool(sites) and all(holds_lock(cm, cn, seen + (m.name,)) for cm, cn in sites)
@@ -306,13 +306,15 @@ def run(rep: Report, prog: Program, tier: str) -> None:
                 if single_load:
                     rep.ok("R17.1")
                     continue
-                if name.startswith("_") and holds_lock(m, m.node):
+                if (name.startswith("_") or name.endswith("__wrapped__")) and holds_lock(m, m.node):
                     rep.ok("R17.1")
                 else:
                     fld = getattr(n, "attr", None) or field_aliases(prog, m, self_name(m) or "self").get(getattr(n, "id", ""), "?")
                     rep.fail("R17.1", f"{m.qual}|{fld}|unlocked", f"{m.qual} accesses guarded field `{fld}` without holding {lock} (and not every call site of this method holds it)", where=m.where(n), function=m.qual)
         # public methods: one critical section, result inside
         for name, m in all_methods(prog, ci).items():
+            if name.endswith("__wrapped__"):
+                continue  # the undecorated body of a method wrapped by a decorator of the library: reachable only through its wrapper
             if name.startswith("_") or m.is_property and name not in locking:
                 if not (m.is_property and name in locking):
                     continue
